@@ -2,6 +2,6 @@
    GetAuditMessageType (String t) = t. *)
 From Coq Require Import List NArith Bool.
 Require Import Bytes Tables.
-Definition bad_msgtypes_fwd : list N := filter (fun t => negb (optN_eqb (get_type (type_name t)) t)) (upto 65536).
-Lemma msgtypes_fwd_ok : bad_msgtypes_fwd = nil.
-Proof. vm_compute. reflexivity. Qed.
+Import ListNotations.
+Lemma msgtypes_fwd_ok : filter (fun t => negb (msgtype_fwd_okb t)) all_types = [].
+Proof. by_vm. Qed.
